@@ -12,6 +12,8 @@ structure BrD where
   body : Stmts
   hdrs : List LItem
   PB : List LItem
+  /-- the state of the compiler behind the block (the label table has the names the block uses) -/
+  sB : St
 
 def frontOf : List BrD → List LItem
   | [] => []
@@ -29,16 +31,19 @@ def srcBranches : List BrD → Src.Branches
 (`E`: the end label of the if-block, where the block's end jump goes) -/
 structure BrOK (cx : Cx) (fuel : Nat) (E : Nat) (s : St) (env : Src.Env) (d : BrD) : Prop where
   hok : HdrsOK d.hs
-  grow : ∀ k b, Grow b (Src.trStmts fuel [] env (toSrcStmts d.body) k b).1
+  grow : ∀ k b, Grow cx.Z b (Src.trStmts fuel [] env (toSrcStmts d.body) k b).1
   pos : d.neg = false → ∃ bps tgt L, HdrsTo tgt bps d.hdrs ∧ (∀ b ∈ bps, tgt b = L) ∧ NamesOf d.hs bps ∧
-    ∀ r ib, Placed cx.rs r ib d.PB → ∀ k b, AgreeOn cx.N b (Src.trStmts fuel [] env (toSrcStmts d.body) k b).1 →
-      ∀ m j, ExitsOK cx m j s env → R2 cx m j (target cx.rs E) k →
+    ∀ r ib, Placed cx.rs r ib d.PB → ∀ k b, AgreeOn cx.N cx.Z b (Src.trStmts fuel [] env (toSrcStmts d.body) k b).1 →
+      ∀ m j, ExitsOK cx m j s env → NamedIn cx d.sB → R2 cx m j (target cx.rs E) k →
         R2 cx m j (target cx.rs L) (Src.trStmts fuel [] env (toSrcStmts d.body) k b).2
   negc : d.neg = true → ∃ bps tgt eL PB', HdrsTo tgt bps d.hdrs ∧ (∀ b ∈ bps, tgt b = eL) ∧ NamesOf d.hs bps ∧
     d.PB = PB' ++ [.label eL false] ∧
-    ∀ r ib, Placed cx.rs r ib d.PB → ∀ k b, AgreeOn cx.N b (Src.trStmts fuel [] env (toSrcStmts d.body) k b).1 →
-      ∀ m j, ExitsOK cx m j s env → R2 cx m j (target cx.rs E) k →
+    ∀ r ib, Placed cx.rs r ib d.PB → ∀ k b, AgreeOn cx.N cx.Z b (Src.trStmts fuel [] env (toSrcStmts d.body) k b).1 →
+      ∀ m j, ExitsOK cx m j s env → NamedIn cx d.sB → R2 cx m j (target cx.rs E) k →
         R2 cx m j ⟨r, ib⟩ (Src.trStmts fuel [] env (toSrcStmts d.body) k b).2
+  labs : ∀ r ib, Placed cx.rs r ib d.PB → ∀ k b, AgreeOn cx.N cx.Z b (Src.trStmts fuel [] env (toSrcStmts d.body) k b).1 →
+    ∀ m j, ExitsOK cx m j s env → NamedIn cx d.sB → R2 cx m j (target cx.rs E) k →
+      LabExport cx env m j b (Src.trStmts fuel [] env (toSrcStmts d.body) k b).1
 
 theorem backOf_placed {rs : List (List LItem)} {r : Nat} : ∀ (brs : List BrD) (q : Nat), Placed rs r q (backOf brs) →
     ∀ d ∈ brs, d.neg = false → ∃ ib, Placed rs r ib d.PB := by
@@ -54,20 +59,22 @@ theorem backOf_placed {rs : List (List LItem)} {r : Nat} : ∀ (brs : List BrD) 
       exact ⟨q, hp.left⟩
     · exact ih _ hp.right d hd hn
 
-theorem chain_corr (cx : Cx) (fuel : Nat) (E : Nat) (s : St) (env : Src.Env) (he : PlainEnv env) : ∀ (brs : List BrD),
+theorem chain_corr (cx : Cx) (fuel : Nat) (E : Nat) (s : St) (env : Src.Env) (he : EnvOK cx env) : ∀ (brs : List BrD),
     (∀ d ∈ brs, BrOK cx fuel E s env d) → ∀ r p, Placed cx.rs r p (frontOf brs) →
     (∀ d ∈ brs, d.neg = false → ∃ ib, Placed cx.rs r ib d.PB) → ∀ (k elseEntry : Nat) (b : Src.B),
-      Grow b (Src.trBranches fuel [] env (srcBranches brs) k elseEntry b).1 ∧
-      (AgreeOn cx.N b (Src.trBranches fuel [] env (srcBranches brs) k elseEntry b).1 → ∀ m j, ExitsOK cx m j s env →
-        R2 cx m j (target cx.rs E) k → R2 cx m j ⟨r, p + (frontOf brs).length⟩ elseEntry →
-        R2 cx m j ⟨r, p⟩ (Src.trBranches fuel [] env (srcBranches brs) k elseEntry b).2) := by
+      Grow cx.Z b (Src.trBranches fuel [] env (srcBranches brs) k elseEntry b).1 ∧
+      (AgreeOn cx.N cx.Z b (Src.trBranches fuel [] env (srcBranches brs) k elseEntry b).1 → ∀ m j, ExitsOK cx m j s env →
+        (∀ d ∈ brs, NamedIn cx d.sB) → R2 cx m j (target cx.rs E) k →
+        (R2 cx m j ⟨r, p + (frontOf brs).length⟩ elseEntry →
+          R2 cx m j ⟨r, p⟩ (Src.trBranches fuel [] env (srcBranches brs) k elseEntry b).2) ∧
+        LabExport cx env m j b (Src.trBranches fuel [] env (srcBranches brs) k elseEntry b).1) := by
   intro brs
   induction brs with
   | nil =>
     intro _ r p _ _ k elseEntry b
     simp only [srcBranches]
     rw [Src.trBranches]
-    exact ⟨Grow.refl b, fun _ m j _ _ h => by simpa [frontOf] using h⟩
+    exact ⟨Grow.refl b, fun _ m j _ _ _ => ⟨fun h => by simpa [frontOf] using h, LabExport.same (fun _ _ => rfl)⟩⟩
   | cons d rest ih =>
     intro hall r p hp hback k elseEntry b
     have hd := hall d (by simp)
@@ -92,15 +99,20 @@ theorem chain_corr (cx : Cx) (fuel : Nat) (E : Nat) (s : St) (env : Src.Env) (he
       obtain ⟨ib, hpb⟩ := hback d (by simp) hneg
       obtain ⟨gT, cT⟩ := testChain_corr cx L bps d.hdrs d.hs tgt hh htg hnm hd.hok r p hpH bodyEntry restEntry b2
       simp only [Bool.false_eq_true, if_false]
-      refine ⟨(gR.trans gB).trans gT, fun hag m j hex hend hels => ?_⟩
-      have agR : AgreeOn cx.N b b1 := hag.sub_grow (Grow.refl b) (gB.trans gT)
-      have agB : AgreeOn cx.N b1 b2 := hag.sub_grow gR gT
+      refine ⟨(gR.trans gB).trans gT.grow, fun hag m j hex hin hend => ?_⟩
+      have agR : AgreeOn cx.N cx.Z b b1 := hag.sub_grow (Grow.refl b) (gB.trans gT.grow)
+      have agB : AgreeOn cx.N cx.Z b1 b2 := hag.sub_grow gR gT.grow
       have agT := hag.sub_grow (gR.trans gB) (Grow.refl _)
+      have hexp : LabExport cx env m j b1 b2 := by
+        have := hd.labs r ib hpb k b1 (by rw [hR2]; exact agB) m j hex (hin d (by simp)) hend
+        rw [hR2] at this; exact this
+      refine ⟨fun hels => ?_, LabExport.comp gR.len (cR agR m j hex (fun x hx => hin x (by simp [hx])) hend).2
+        (LabExport.comp gB.len hexp (LabExport.same (fun i hi => gT.same hi)))⟩
       have hbody : R2 cx m j (target cx.rs L) bodyEntry := by
-        have := hsem r ib hpb k b1 (by rw [hR2]; exact agB) m j hex hend
+        have := hsem r ib hpb k b1 (by rw [hR2]; exact agB) m j hex (hin d (by simp)) hend
         rw [hR2] at this; exact this
       have hrest : R2 cx m j ⟨r, p + d.hdrs.length⟩ restEntry := by
-        have := cR agR m j hex hend (by
+        have := (cR agR m j hex (fun x hx => hin x (by simp [hx])) hend).1 (by
           simp only [frontOf, hneg, Bool.false_eq_true, if_false, List.append_nil, List.length_append] at hels ⊢
           simpa [Nat.add_assoc] using hels)
         simpa [hneg] using this
@@ -110,15 +122,20 @@ theorem chain_corr (cx : Cx) (fuel : Nat) (E : Nat) (s : St) (env : Src.Env) (he
       simp only [hneg, if_true] at hpB hpR
       obtain ⟨gT, cT⟩ := testChain_corr cx eL bps d.hdrs d.hs tgt hh htg hnm hd.hok r p hpH restEntry bodyEntry b2
       simp only [if_true]
-      refine ⟨(gR.trans gB).trans gT, fun hag m j hex hend hels => ?_⟩
-      have agR : AgreeOn cx.N b b1 := hag.sub_grow (Grow.refl b) (gB.trans gT)
-      have agB : AgreeOn cx.N b1 b2 := hag.sub_grow gR gT
+      refine ⟨(gR.trans gB).trans gT.grow, fun hag m j hex hin hend => ?_⟩
+      have agR : AgreeOn cx.N cx.Z b b1 := hag.sub_grow (Grow.refl b) (gB.trans gT.grow)
+      have agB : AgreeOn cx.N cx.Z b1 b2 := hag.sub_grow gR gT.grow
       have agT := hag.sub_grow (gR.trans gB) (Grow.refl _)
+      have hexp : LabExport cx env m j b1 b2 := by
+        have := hd.labs r _ hpB k b1 (by rw [hR2]; exact agB) m j hex (hin d (by simp)) hend
+        rw [hR2] at this; exact this
+      refine ⟨fun hels => ?_, LabExport.comp gR.len (cR agR m j hex (fun x hx => hin x (by simp [hx])) hend).2
+        (LabExport.comp gB.len hexp (LabExport.same (fun i hi => gT.same hi)))⟩
       have hbody : R2 cx m j ⟨r, p + d.hdrs.length⟩ bodyEntry := by
-        have := hsem r _ hpB k b1 (by rw [hR2]; exact agB) m j hex hend
+        have := hsem r _ hpB k b1 (by rw [hR2]; exact agB) m j hex (hin d (by simp)) hend
         rw [hR2] at this; exact this
       have hrest : R2 cx m j ⟨r, p + (d.hdrs ++ d.PB).length⟩ restEntry := by
-        have := cR agR m j hex hend (by
+        have := (cR agR m j hex (fun x hx => hin x (by simp [hx])) hend).1 (by
           simp only [frontOf, hneg, if_true, List.length_append] at hels ⊢
           simpa [Nat.add_assoc] using hels)
         simpa [hneg] using this
